@@ -19,7 +19,7 @@ from ..seams.simaddr import SimAddresses
 
 QUERIES = ["symmetric_difference", "false_positives_and_negatives", "weighted_robinson_foulds_distance", "euclidean_distance",
            "find_missing_bipartitions", "Tree.symmetric_difference", "unweighted_robinson_foulds_distance"]
-EDITS = ["rotate", "reseed", "collapse", "resolve", "spr", "set_length", "clear_length", "scale", "encode", "copy", "nni"]
+EDITS = ["rotate", "reseed", "collapse", "resolve", "spr", "set_length", "clear_length", "scale", "encode", "copy", "nni", "nudge_length", "tiny_length"]
 
 
 def _rel(a, b, tol=1e-9):
@@ -178,6 +178,17 @@ class C04(Machine):
         if kind == "set_length":
             cands = [nd for nd in nodes if nd._parent_node is not None]
             cands[k % len(cands)]._edge.length = st["x"]
+            return True
+        if kind in ("nudge_length", "tiny_length"):
+            # differences far below any "noise" threshold a distance function might be tempted to apply
+            cands = [nd for nd in nodes if nd._parent_node is not None and nd._edge.length is not None]
+            if not cands:
+                return False
+            e = cands[k % len(cands)]._edge
+            if kind == "nudge_length":
+                e.length = e.length + [8e-6, 2e-6, 1e-7][k2 % 3]
+            else:
+                e.length = [1e-6, 5e-6, 1e-8][k2 % 3]
             return True
         if kind == "clear_length":
             cands = [nd for nd in nodes if nd._parent_node is not None]
